@@ -509,89 +509,94 @@ func c29IterBounds(c *engine.Ctx, p *engine.Prog) {
 		if f == nil {
 			continue
 		}
-		info := f.Info()
-		isRev := func(e ast.Expr) bool {
-			fld := sfSelField(info, e)
+		// Every comparison of the current key with a bound, in Valid or in helpers it calls,
+		// judged by the facts (direction) that hold where it is evaluated. Strictness is what
+		// matters: forward  key >= end  (invalid) / key < end  (valid);
+		//          reverse  key <  start (invalid) / key >= start (valid).
+		isRevF := func(cx *sfCtx, e ast.Expr) bool {
+			fld := sfSelField(cx.fn.Info(), e)
 			return fld != nil && fld.Name() == "isReverse"
 		}
-		isFld := func(e ast.Expr, name string) bool {
-			return sfDerives(f, e, func(x ast.Expr) bool {
-				fld := sfSelField(info, x)
+		isFld := func(cx *sfCtx, e ast.Expr, name string) bool {
+			return sfOperandIs(cx, e, func(c2 *sfCtx, x ast.Expr) bool {
+				fld := sfSelField(c2.fn.Info(), x)
 				return fld != nil && fld.Name() == name
-			}, 2)
+			})
 		}
-		isKey := func(e ast.Expr) bool {
-			return sfDerives(f, e, func(x ast.Expr) bool {
-				if fld := sfSelField(info, x); fld != nil && fld.Name() == "currentKey" {
+		isKey := func(cx *sfCtx, e ast.Expr) bool {
+			return sfOperandIs(cx, e, func(c2 *sfCtx, x ast.Expr) bool {
+				if fld := sfSelField(c2.fn.Info(), x); fld != nil && fld.Name() == "currentKey" {
 					return true
 				}
 				cl, ok := ast.Unparen(x).(*ast.CallExpr)
-				return ok && strings.HasSuffix(sfCallee(info, cl), ".Key")
-			}, 2)
+				return ok && strings.HasSuffix(sfCallee(c2.fn.Info(), cl), ".Key")
+			})
 		}
 		fwd, rev := 0, 0
-		engine.InspectBody(f, func(x ast.Node) {
-			is, isIf := x.(*ast.IfStmt)
-			if !isIf {
-				return
-			}
-			for _, cj := range engine.Conjuncts(is.Cond, token.LAND) {
-				a, bb, op, isC := sfCmp(cj)
-				if !isC || !sfIsIntLit(bb, "0") {
-					continue
+		stopSelf := func(nm string) bool {
+			return strings.HasSuffix(nm, ".assertNoError") || strings.HasSuffix(nm, ".assertIsValid")
+		}
+		for _, cx := range sfCtxs(sfRoot(f), 2, stopSelf) {
+			info := cx.fn.Info()
+			cx := cx
+			engine.InspectBody(cx.fn, func(x ast.Node) {
+				be, isB := x.(*ast.BinaryExpr)
+				if !isB {
+					return
+				}
+				a, bb, op, isC := sfCmp(be)
+				if !isC {
+					return
+				}
+				if k, isK := sfConstInt(info, bb); !isK || k != 0 {
+					return
 				}
 				if id, isId := ast.Unparen(a).(*ast.Ident); isId {
-					if d := sfSingleDef(f, info.ObjectOf(id)); d != nil {
+					if d := sfSingleDef(cx.fn, info.ObjectOf(id)); d != nil {
 						a = d // hoisted comparison result
 					}
 				}
 				cl, isCall := sfIsCallTo(info, a, "bytes.Compare")
 				if !isCall {
-					continue
+					return
 				}
-				st := f.SiteOf(is.Cond)
+				st := cx.fn.SiteOf(be)
 				if st == nil {
-					continue
+					return
 				}
-				// normalise to  key <op> bound
 				x0, x1 := cl.Args[0], cl.Args[1]
 				var bound string
 				switch {
-				case isKey(x0) && isFld(x1, "start"):
+				case isKey(cx, x0) && isFld(cx, x1, "start"):
 					bound = "start"
-				case isKey(x0) && isFld(x1, "end"):
+				case isKey(cx, x0) && isFld(cx, x1, "end"):
 					bound = "end"
-				case isFld(x0, "start") && isKey(x1):
+				case isFld(cx, x0, "start") && isKey(cx, x1):
 					bound, op = "start", engine.Flip(op)
-				case isFld(x0, "end") && isKey(x1):
+				case isFld(cx, x0, "end") && isKey(cx, x1):
 					bound, op = "end", engine.Flip(op)
 				default:
-					continue
+					return
 				}
-				// the if body must invalidate (return false)
-				inval := false
-				for _, s := range is.Body.List {
-					if r, isR := s.(*ast.ReturnStmt); isR && len(r.Results) == 1 {
-						if id, isId := r.Results[0].(*ast.Ident); isId && id.Name == "false" {
-							inval = true
-						}
-					}
-				}
-				reverse := sfHolds(f, st, true, isRev)
+				facts := sfFactsAt(cx, st)
+				reverse, forward := sfKnown(facts, true, isRevF), sfKnown(facts, false, isRevF)
 				n++
-				if reverse {
+				switch {
+				case reverse == forward:
+					c.Check("iter-bounds", f.Name+" bound test with unknown direction", be.Pos(), false, "a key/bound comparison must be specific to one direction (isReverse known)")
+				case reverse:
 					rev++
-					c.Check("iter-bounds", f.Name+" reverse lower bound", is.Pos(), inval && bound == "start" && op == token.LSS,
+					c.Check("iter-bounds", f.Name+" reverse lower bound", be.Pos(), bound == "start" && (op == token.LSS || op == token.GEQ),
 						"a reverse iterator is invalid exactly when key < start (start inclusive); found key "+op.String()+" "+bound)
-				} else {
+				default:
 					fwd++
-					c.Check("iter-bounds", f.Name+" forward upper bound", is.Pos(), inval && bound == "end" && op == token.GEQ && sfHolds(f, st, false, isRev),
+					c.Check("iter-bounds", f.Name+" forward upper bound", be.Pos(), bound == "end" && (op == token.GEQ || op == token.LSS),
 						"a forward iterator is invalid exactly when key >= end (end exclusive); found key "+op.String()+" "+bound)
 				}
-			}
-		})
+			})
+		}
 		n++
-		c.Check("iter-bounds", f.Name+" tests one bound per direction", f.Pos(), fwd == 1 && rev == 1, "")
+		c.Check("iter-bounds", f.Name+" tests one bound per direction", f.Pos(), fwd >= 1 && rev >= 1, "")
 		// Next: Prev under isReverse, Next otherwise
 		if g := sfMethod(c, b.pkg, b.iter, "Next"); g != nil {
 			ginfo := g.Info()
@@ -796,54 +801,44 @@ func c29Wrappers(c *engine.Ctx, p *engine.Prog) {
 		if f == nil {
 			continue
 		}
-		info := f.Info()
-		pf := p.Field(c29DB + ".PrefixDB.prefix")
-		var pc *engine.Site
-		for _, s := range f.Calls() {
-			if fld, mm := sfMethodOnField(info, s.Call); fld == inner && inner != nil && (mm == "Iterator" || mm == "ReverseIterator") {
-				pc = s
-			}
+		stopR := func(cx *sfCtx, cl *ast.CallExpr) bool {
+			nm := sfCallee(cx.fn.Info(), cl)
+			return nm == "builtin.append" || nm == c29DB+".cp" || nm == c29DB+".cpIncr"
 		}
-		ok := pc != nil
+		pcs := sfDeepFieldCalls(f, 2, inner, "Iterator", "ReverseIterator")
+		ok := len(pcs) == 1
 		if ok {
-			_, mm := sfMethodOnField(info, pc.Call)
-			prefApp := func(param int) func(ast.Expr) bool {
-				return func(e ast.Expr) bool {
-					cl, isC := sfIsCallTo(info, e, "builtin.append")
-					if !isC || !cl.Ellipsis.IsValid() || !sfIsParam(f, cl.Args[1], param) {
-						return false
-					}
-					in, isCp := sfIsCallTo(info, cl.Args[0], c29DB+".cp")
-					return isCp && sfFieldSel(info, in.Args[0], pf)
+			pc := pcs[0]
+			_, mm := sfMethodOnField(pc.info(), pc.site.Call)
+			ok = mm == m && sfAllLeafs(sfLeafs(pc.ctx, pc.arg(0), pc.site, 5, stopR), func(l sfLeaf) bool { return isPrefixedKey(l, 0) })
+			// end: cpIncr(prefix) exactly when end == nil, else prefix++end
+			endNil := func(op token.Token) func(*sfCtx, ast.Expr) bool {
+				return func(cx *sfCtx, e ast.Expr) bool {
+					a, b, o, isC := sfCmp(e)
+					return isC && o == op && isNil(b) && sfRootParam(cx, a) == 1
 				}
 			}
-			ok = mm == m && sfDerives(f, pc.Call.Args[0], prefApp(0), 2)
-			// end: cpIncr(prefix) when end == nil, else prefix++end
-			if id, isId := ast.Unparen(pc.Call.Args[1]).(*ast.Ident); ok && isId {
-				obj := info.ObjectOf(id)
-				nilDef, nonNil, other := 0, 0, 0
-				engine.InspectBody(f, func(x ast.Node) {
-					as, isAs := x.(*ast.AssignStmt)
-					if !isAs || len(as.Lhs) != 1 || engine.ObjOf(info, as.Lhs[0]) != obj {
-						return
-					}
-					st := f.SiteOf(as)
-					endNil := func(e ast.Expr) bool {
-						a, b, op, isC := sfCmp(e)
-						return isC && op == token.EQL && isNil(b) && sfIsParam(f, a, 1)
-					}
-					if in, isC := sfIsCallTo(info, as.Rhs[0], c29DB+".cpIncr"); isC && sfFieldSel(info, in.Args[0], pf) && st != nil && sfHolds(f, st, true, endNil) {
+			nilDef, nonNil := 0, 0
+			base := pc.facts()
+			for _, l := range sfLeafs(pc.ctx, pc.arg(1), pc.site, 5, stopR) {
+				facts := append(append([]sfFact{}, base...), l.facts...)
+				isNilEnd := sfKnown(facts, true, endNil(token.EQL)) || sfKnown(facts, false, endNil(token.NEQ))
+				notNilEnd := sfKnown(facts, false, endNil(token.EQL)) || sfKnown(facts, true, endNil(token.NEQ))
+				switch {
+				case l.e == nil:
+					ok = false
+				case isPrefixedKey(l, 1) && notNilEnd && !isNilEnd:
+					nonNil++
+				default:
+					in, isC := sfIsCallTo(l.ctx.fn.Info(), l.e, c29DB+".cpIncr")
+					if isC && sfFieldSel(l.ctx.fn.Info(), in.Args[0], pfxField) && isNilEnd && !notNilEnd {
 						nilDef++
-					} else if prefApp(1)(as.Rhs[0]) && st != nil && sfHolds(f, st, false, endNil) {
-						nonNil++
 					} else {
-						other++
+						ok = false
 					}
-				})
-				ok = nilDef == 1 && nonNil == 1 && other == 0
-			} else {
-				ok = false
+				}
 			}
+			ok = ok && nilDef >= 1 && nonNil >= 1
 		}
 		n++
 		c.Check("wrapper", f.Name+" forwards the prefixed range in the same direction", f.Pos(), ok, "start = prefix++start; end = cpIncr(prefix) when open, else prefix++end")
